@@ -399,6 +399,10 @@ func genCase(r *vrand.Rand, i int) *vcase {
 		c.status = 500
 		if c.kind == kPlainStatus {
 			c.status = r.Range(400, 599)
+			if r.Chance(1, 6) {
+				// an error may carry any status of its own; a non-200 status below 400 is still not a success
+				c.status = r.Pick(201, 202, 203, 206, 226, 300, 399)
+			}
 			c.err = &verifStatusErr{msg, c.status}
 			c.shape = "Status()"
 		} else {
